@@ -557,14 +557,17 @@ func c11GenGlue(rng *rand.Rand, tier string, emit func(string)) {
 		}
 		circ := rng.Intn(7) == 0
 		frag := rng.Intn(12) == 0
+		if frag && gap > 6 {
+			gap = 1 + rng.Intn(6)
+		}
 		// the options
 		mnS := []string{"", "", "0", "-2", strconv.Itoa(gap), strconv.Itoa(gap), strconv.Itoa(gap - 1), strconv.Itoa(gap + 1), "1"}[rng.Intn(9)]
 		mx := []int{gap, gap, gap + 1, gap + 7, max(gap-1, 1), 60}[rng.Intn(6)]
 		if rng.Intn(25) == 0 && !frag {
 			mx = []int{0, -1, -5}[rng.Intn(3)]
 		}
-		if frag {
-			mx = max(mx, 2)
+		if frag { // templates of more than 1000 x L symbols: L stays small (the model costs microseconds per template symbol)
+			mx = max(gap, 2) + rng.Intn(3)
 		}
 		deltaS := []string{"", "", "", "-1", "-3", "0", "1", "3", "50"}[rng.Intn(9)]
 		if frag && deltaS == "50" {
